@@ -467,6 +467,87 @@ pub fn gold_major_orders() -> Vec<String> {
 
 /// Cross-dependence of the two set-ups: after EVERY one of the 5,040 major-piece orders of Gold, every Silver prefix
 /// of length <= depth (the Silver phase must not read Gold's arrangement).
+fn offers_match(va: &[Action], left: &[u8; 6]) -> bool {
+    let mut offered = [0u8; 6];
+    for a in va.iter() {
+        match a {
+            Action::Place(p) => offered[piece_strength(*p) as usize] += 1,
+            _ => return false,
+        }
+    }
+    (0..6).all(|t| offered[t] == (left[t] > 0) as u8)
+}
+
+/// Query order: the trie asks every state for its offers before acting on it.  Here states are produced FIRST (a chain
+/// of 17 prefix states of one Gold order, none of them asked anything) and asked afterwards, last-to-first and, on a
+/// second chain, first-to-last; and two different successors of a never-asked state are asked before their parent.  An
+/// implementation that computes offers lazily and shares the unfilled slot between a state and its successors answers
+/// with another state's list in exactly these orders.
+fn late_queries(ctx: &mut E3Ctx, prefix: &[Action], job: usize) {
+    let lefts: Vec<[u8; 6]> = {
+        let mut v = vec![COMPLEMENT];
+        let mut left = COMPLEMENT;
+        for a in prefix.iter() {
+            if let Action::Place(p) = a {
+                let t = piece_strength(*p) as usize;
+                left[t] = left[t].saturating_sub(1);
+            }
+            v.push(left);
+        }
+        // after Gold's 16th placement Silver is on move with a full complement
+        let n = v.len();
+        v[n - 1] = COMPLEMENT;
+        v
+    };
+    let build = || -> Vec<GameState> {
+        let mut chain = vec![GameState::initial()];
+        for a in prefix.iter() {
+            let next = chain.last().unwrap().take_action(a);
+            chain.push(next);
+        }
+        chain
+    };
+    for (pass, rev) in [("last-to-first", true), ("first-to-last", false)] {
+        let chain = build();
+        let idxs: Vec<usize> = if rev { (0..chain.len()).rev().collect() } else { (0..chain.len()).collect() };
+        for j in idxs {
+            ctx.stats.add("e3_late_queries", 1);
+            let va = chain[j].valid_actions();
+            if !offers_match(&va, &lefts[j]) {
+                ctx.path.clear();
+                ctx.fail(None, &format!("C09: offered placements are not exactly the piece types with remaining complement (the 17 prefix states of this Gold order were all produced before any was asked; asked {}; this is the state after the first {} placements)", pass, j), actions_text(&va), format!("remaining R C D H M E = {:?}", lefts[j]));
+                return;
+            }
+        }
+    }
+    // siblings of a never-asked state
+    let j = job % prefix.len();
+    let chain = build();
+    let kinds: Vec<usize> = (0..6).filter(|&t| lefts[j][t] > 0).collect();
+    if kinds.len() >= 2 {
+        let place = |t: usize| -> Action { ["r", "c", "d", "h", "m", "e"][t].parse::<Action>().unwrap() };
+        let (ka, kb) = (kinds[0], kinds[kinds.len() - 1]);
+        let (sa, sb) = (chain[j].take_action(&place(ka)), chain[j].take_action(&place(kb)));
+        let expect = |k: usize| -> [u8; 6] {
+            let mut l = lefts[j];
+            l[k] -= 1;
+            if j + 1 == prefix.len() {
+                l = COMPLEMENT;
+            }
+            l
+        };
+        for (st, l, what) in [(&sa, expect(ka), "first sibling"), (&sb, expect(kb), "second sibling"), (&chain[j], lefts[j], "their parent, asked last")] {
+            ctx.stats.add("e3_late_queries", 1);
+            let va = st.valid_actions();
+            if !offers_match(&va, &l) {
+                ctx.path.clear();
+                ctx.fail(None, &format!("C09: offered placements are not exactly the piece types with remaining complement (two successors of the never-asked state after {} placements: {})", j, what), actions_text(&va), format!("remaining R C D H M E = {:?}", l));
+                return;
+            }
+        }
+    }
+}
+
 pub fn run_product(prop: &str, checks: u32, depth: usize) -> FamilyResult {
     let t0 = Instant::now();
     let orders = gold_major_orders();
@@ -482,6 +563,9 @@ pub fn run_product(prop: &str, checks: u32, depth: usize) -> FamilyResult {
             let prefix: Vec<Action> = order.chars().map(|c| c.to_string().parse::<Action>().unwrap()).collect();
             let mut ctx = E3Ctx { prop, checks, family: fam2.clone(), prefix: prefix.clone(), path: vec![], query: "", stats: Stats::default(), max_depth: depth, job: i as u64 };
             let r = catch_unwind(AssertUnwindSafe(|| {
+                if ctx.on(C09) {
+                    late_queries(&mut ctx, &prefix, i);
+                }
                 let mut gs = GameState::initial();
                 for a in prefix.iter() {
                     gs = gs.take_action(a);
